@@ -117,7 +117,7 @@ def run(tier):
     progs.append(kani_runner.Program(name, e1.HEADER.format(pid=PID, name=name, desc="bound(..) forms on Deref / DerefMut") + BOUND_FORMS + e1.harness(), "bound-forms|Deref+DerefMut",
                                      "bound(..) forms on Deref / DerefMut", nontrivial=True))
     out = common.Outcome(PID)
-    extra = e3_extras.summary(e3_extras.safe(e3_extras.c18_arity, out))
+    extra = e3_extras.summary(e3_extras.safe(e3_extras.c18_arity, out), e3_extras.safe(e3_extras.c18_signature, out))
     return e1.finish(
         PID, tier, progs, t0, outcome=out, extra=extra,
         rule="one Kani harness per single-field struct shape x {Deref, Deref+DerefMut} x entry point; field value and written value symbolic; "
